@@ -112,6 +112,14 @@ def ev(mod, node, cname=None, depth=0):
     if isinstance(node, ast.Attribute) and isinstance(node.value, ast.Name) \
             and node.value.id in ('self', 'cls') and cname is not None:
         return ev(mod, mod.assign(cname, node.attr), cname, depth + 1)
+    if isinstance(node, ast.Call) and isinstance(node.func, ast.Name) and node.func.id in ('list', 'tuple', 'sorted') \
+            and len(node.args) == 1 and not node.keywords:
+        v = ev(mod, node.args[0], cname, depth + 1)
+        return sorted(v) if node.func.id == 'sorted' else list(v)
+    if isinstance(node, ast.Set):
+        return [ev(mod, e, cname, depth + 1) for e in node.elts]
+    if isinstance(node, ast.Starred):
+        raise ExtractError('%s: starred expression in a literal' % mod.name)
     raise ExtractError('%s: cannot read %s as a literal' % (mod.name, ast.dump(node)[:120]))
 
 
@@ -381,28 +389,59 @@ def _calls_in(stmts):
 
 
 def _handler_rows(try_node, where, third):
-    """(exception class, records the exception on the transfer, re-raises, <third>) per except clause"""
+    """(exception class, records the exception on the transfer, re-raises, <third>) per except clause;
+    `except (A, B):` counts as two clauses with the same body; the name the exception is bound to does
+    not matter; re-raising is a bare `raise` or `raise <bound name>`."""
     rows = []
     for h in try_node.handlers:
         if h.type is None:
-            cls = 'BaseException'
+            classes = ['BaseException']
         elif isinstance(h.type, ast.Name):
-            cls = h.type.id
+            classes = [h.type.id]
+        elif isinstance(h.type, ast.Tuple) and all(isinstance(e, ast.Name) for e in h.type.elts):
+            classes = [e.id for e in h.type.elts]
         else:
-            raise ExtractError('%s: an except clause with something other than one class name' % where)
-        if cls not in ('Exception', 'BaseException'):
-            raise ExtractError('%s: except %s (only Exception / BaseException are modelled)' % (where, cls))
+            raise ExtractError('%s: an except clause with something other than class names' % where)
+        for cls in classes:
+            if cls not in ('Exception', 'BaseException'):
+                raise ExtractError('%s: except %s (only Exception / BaseException are modelled)' % (where, cls))
         calls = _calls_in(h.body)
-        reraises = any(isinstance(st, ast.Raise) and st.exc is None for st in h.body)
-        rows.append((cls, bool(calls & {'_log_and_set_exception', 'set_exception'}), reraises, bool(calls & third)))
+        reraises = any(isinstance(st, ast.Raise) and (st.exc is None or (isinstance(st.exc, ast.Name) and st.exc.id == h.name))
+                       for st in h.body)
+        third_names = set(third(try_node)) if callable(third) else set(third)
+        for cls in classes:
+            rows.append((cls, bool(calls & {'_log_and_set_exception', 'set_exception'}), reraises, bool(calls & third_names)))
     return rows
 
 
-def _try_containing(func, call_name, where):
-    for node in ast.walk(func):
-        if isinstance(node, ast.Try) and call_name in _calls_in(node.body):
-            return node
+def _tries_around(func, pred):
+    """the `try` statements whose body contains a node satisfying `pred`, innermost first"""
+    cands = [t for t in ast.walk(func) if isinstance(t, ast.Try) and any(pred(n) for st in t.body for n in ast.walk(st))]
+
+    def depth(t):
+        return sum(1 for u in cands if u is not t and any(n is t for st in u.body for n in ast.walk(st)))
+    return sorted(cands, key=depth, reverse=True)
+
+
+def _is_call_named(names):
+    def pred(n):
+        if isinstance(n, ast.Call):
+            f = n.func
+            return (isinstance(f, ast.Attribute) and f.attr in names) or (isinstance(f, ast.Name) and f.id in names)
+        return False
+    return pred
+
+
+def _innermost_with_handlers(chain):
+    for t in chain:
+        if t.handlers:
+            return t
     return None
+
+
+def _try_containing(func, call_name, where):
+    chain = _tries_around(func, _is_call_named({call_name}))
+    return _innermost_with_handlers(chain)
 
 
 def gen_handlers():
@@ -414,16 +453,18 @@ def gen_handlers():
     out = [HEADER, 'namespace S3V.Gen\n']
     # Task.__call__
     call = module('tasks').func('Task', '__call__')
-    t = _try_containing(call, '_execute_main', 'tasks.Task.__call__')
+    chain = _tries_around(call, _is_call_named({'_execute_main'}))
+    t = _innermost_with_handlers(chain)
     if t is None:
-        raise ExtractError('tasks.Task.__call__: no try statement around _execute_main')
+        raise ExtractError('tasks.Task.__call__: no try statement with except clauses around _execute_main')
     out.append('/-- `Task.__call__`: (class, records, re-raises, -) -/\n')
     out.append('def taskHandlers : List (String × Bool × Bool × Bool) := %s\n' % rows(_handler_rows(t, 'tasks.Task.__call__', set())))
-    fin = _calls_in(t.finalbody)
+    # the finally blocks of that try and of the ones around it (`try/except/finally` = `try: (try/except) finally:`)
+    final = [st for tr in chain for st in tr.finalbody]
     runs_cbs = any(isinstance(n, ast.For) and isinstance(n.iter, ast.Attribute) and n.iter.attr == '_done_callbacks'
-                   for st in t.finalbody for n in ast.walk(st))
+                   for st in final for n in ast.walk(st))
     announces = any(isinstance(n, ast.If) and isinstance(n.test, ast.Attribute) and n.test.attr == '_is_final'
-                    and 'announce_done' in _calls_in(n.body) for st in t.finalbody for n in ast.walk(st))
+                    and 'announce_done' in _calls_in(n.body) for st in final for n in ast.walk(st))
     skips = any(isinstance(n, ast.If) and isinstance(n.test, ast.UnaryOp) and isinstance(n.test.op, ast.Not)
                 and 'done' in _calls_in([ast.Expr(n.test.operand)]) and '_execute_main' in _calls_in(n.body)
                 for st in t.body for n in ast.walk(st))
@@ -438,13 +479,19 @@ def gen_handlers():
         _handler_rows(t, 'futures.NonThreadedExecutor.submit', {'set_exception_info', 'set_exception'}) if t is not None else []))
     # BoundedExecutor.submit
     bsub = module('futures').func('BoundedExecutor', 'submit')
-    t = None
+    release_names = {'release'}
     for node in ast.walk(bsub):
-        if isinstance(node, ast.Try) and any(isinstance(n, ast.Attribute) and n.attr == '_executor' for st in node.body for n in ast.walk(st)):
-            t = node
+        if isinstance(node, ast.Assign) and isinstance(node.value, ast.Call) and isinstance(node.value.func, ast.Name) \
+                and node.value.func.id == 'FunctionContainer' and node.value.args \
+                and isinstance(node.value.args[0], ast.Attribute) and node.value.args[0].attr == 'release':
+            for tg in node.targets:
+                if isinstance(tg, ast.Name):
+                    release_names.add(tg.id)
+    chain = _tries_around(bsub, lambda n: isinstance(n, ast.Attribute) and n.attr == '_executor')
+    t = _innermost_with_handlers(chain)
     out.append('/-- `BoundedExecutor.submit` around the underlying submit: (class, -, re-raises, gives the permit back) -/\n')
     out.append('def boundedSubmitHandlers : List (String × Bool × Bool × Bool) := %s\n' % rows(
-        _handler_rows(t, 'futures.BoundedExecutor.submit', {'release_callback', 'release'}) if t is not None else []))
+        _handler_rows(t, 'futures.BoundedExecutor.submit', release_names) if t is not None else []))
     # SubmissionTask._main
     main = module('tasks').func('SubmissionTask', '_main')
     t = _try_containing(main, '_submit', 'tasks.SubmissionTask._main')
